@@ -4,6 +4,7 @@ import Proofs.C06.Codec
 import Proofs.C06.Regroup
 import Proofs.C06.RegroupConv
 import Proofs.C06.Base58
+import Proofs.C06.Address
 /-!
 # C06 — text encodings and addresses round-trip and accept exactly what the specs accept
 
@@ -190,6 +191,31 @@ theorem hrp_separator_prefix_free : ∀ a ∈ NETWORKS, ∀ b ∈ NETWORKS,
 theorem witness_program_sizes (ver n : Nat) :
     Address.programOk ver n = true ↔ ver ≤ 16 ∧ 2 ≤ n ∧ n ≤ 40 ∧ (ver = 0 → n = 20 ∨ n = 32) :=
   Address.programOk_iff ver n
+
+open Btc.Address Gen.Net in
+/-- T5 (segwit address, decode ∘ encode): for EVERY network of the generated table, every witness version
+    0..16 and every admissible program (sizes per the generated table = BIP141), `address_from_witness`
+    writes an address of at most 90 characters, all lower case, that `witness_from_address` reads back to
+    the same version and program, on the first network `m` sharing the hrp (same main/test type by
+    `network_lookup_preserves_type`). -/
+theorem segwit_address_roundtrip (net : Network) (hn : net ∈ NETWORKS) (ver : Nat) (prog : Bytes)
+    (hok : programOk ver prog.length = true) :
+    ∃ a m, addressFromWitness (ver : Int) prog net.hrp = .ok a ∧
+      networkFrom (·.hrp) net.hrp = some m ∧ witnessFromAddress a = .ok (ver, prog, m.name) ∧
+      a.length ≤ Gen.Segwit.MAX_ADDR_LEN ∧ Bech32.lower a = a :=
+  witness_roundtrip net hn ver prog hok
+
+open Btc.Address Gen.Net in
+/-- T5 (p2pkh / p2sh address, decode ∘ encode): for any hash `H` of at least 4 bytes (hash256), every
+    network of the table and every 20-byte hash, `address_from_h160` writes an address that
+    `h160_from_address` reads back as the same script type and hash, on the first network `m` carrying the
+    same version byte (p2pkh is looked up before p2sh and never shadows it). -/
+theorem base58_address_roundtrip (H : Bytes → Bytes) (hH : ∀ x, 4 ≤ (H x).length) (net : Network)
+    (hn : net ∈ NETWORKS) (kind : Kind) (hk : kind = .p2pkh ∨ kind = .p2sh) (h160 : Bytes) (hl : h160.length = 20) :
+    ∃ a m, addressFromH160 H kind h160 net = .ok a ∧
+      (match kind with | .p2sh => networkFrom (·.p2sh) net.p2sh | _ => networkFrom (·.p2pkh) net.p2pkh) = some m ∧
+      h160FromAddress H a = .ok (kind, h160, m.name) :=
+  h160_roundtrip H hH net hn kind hk h160 hl
 
 example : Address.programOk 0 20 = true ∧ Address.programOk 0 21 = false ∧ Address.programOk 16 40 = true := by decide
 
